@@ -77,11 +77,11 @@ static void sky_case(const backend::crs<V, ptrdiff_t, ptrdiff_t> &A, const std::
         ld an = 0; for (int i = 0; i < D.n; ++i) { ld sr = 0; for (int j = 0; j < D.m; ++j) sr += std::abs(D(i, j)); an = std::max(an, sr); }
         ld res = vd::nrm_inf(vd::sub(vd::mul(D, xd), fd)) / std::max((ld)1e-300L, an * vd::nrm_inf(xd) + vd::nrm_inf(fd));
         bool ok; dvec ref = vd::solve(D, fd, ok);
-        o.i("res", md(res)).i("err", ok ? md(vd::rel_diff(xd, ref)) : -30000);
+        o.i("res", md(res)).i("err", ok ? md(vd::rel_diff(xd, ref)) : -30000).b("finite", vd::all_finite(xd));
         if (B == 1 && std::is_same<V, double>::value) { std::vector<double> xr(n); for (size_t i = 0; i < n; ++i) xr[i] = (double)xd[i].real(); o.raw("x", vd::fix_list(xr, SH, big)); }
         else o.raw("x", "[]");
     } catch (const std::exception &e) {
-        o.i("exc", 1).str("what", e.what()).b("again", true).raw("iperm", "[]").raw("ptr", "[]").i("res", -30000).i("err", -30000).raw("x", "[]");
+        o.i("exc", 1).str("what", e.what()).b("again", true).raw("iperm", "[]").raw("ptr", "[]").i("res", -30000).i("err", -30000).b("finite", true).raw("x", "[]");
     }
     o.b("big", big);
     if (Aint) { o.raw("A", J(*Aint, o)); o.dbls("f", fs); } else { o.raw("A", J(*pattern_of(A), o)); o.raw("f", "[]"); }
@@ -201,7 +201,7 @@ template <int N> static void inv_case(const std::vector<int> &a, const char *tag
     ld e1 = vd::max_abs(vd::subm(vd::mul(D, Di), vd::ident(N))), e2 = vd::max_abs(vd::subm(vd::mul(Di, D), vd::ident(N)));
     bool ok; dmat R = vd::inverse(D, ok);
     bool big = false; std::vector<double> out(N * N); for (int k = 0; k < N * N; ++k) out[k] = Ai(k);
-    vr::obj o; o.str("k", "inv").str("tag", tag).i("n", N).b("rat", rat).i("sh", SH).ints("A", a).raw("out", vd::fix_list(out, SH, big)).b("big", big);
+    vr::obj o; o.str("k", "inv").str("tag", tag).i("n", N).b("rat", rat).i("sh", SH).ints("A", a).raw("out", vd::fix_list(out, SH, big)).b("big", big).b("finite", vd::all_finite(Di));
     o.i("eres", md(std::max(e1, e2) / std::max((ld)1, vd::max_abs(Di) * vd::max_abs(D)))).i("err", md(vd::max_abs(vd::subm(Di, R)) / std::max((ld)1, vd::max_abs(R))));
     put(o);
 }
@@ -230,7 +230,7 @@ static void c_inv_complex(vr::rng &g, int n) {
     amgcl::detail::inverse(n, A.data(), t.data(), p.data());
     dmat Di(n, n); for (int i = 0; i < n; ++i) for (int j = 0; j < n; ++j) Di(i, j) = cld(A[i * n + j].real(), A[i * n + j].imag());
     ld e1 = vd::max_abs(vd::subm(vd::mul(D, Di), vd::ident(n))), e2 = vd::max_abs(vd::subm(vd::mul(Di, D), vd::ident(n)));
-    vr::obj o; o.str("k", "inv").str("tag", "complex").i("n", n).b("rat", false).i("sh", SH).raw("A", "[]").raw("out", "[]").b("big", false);
+    vr::obj o; o.str("k", "inv").str("tag", "complex").i("n", n).b("rat", false).i("sh", SH).raw("A", "[]").raw("out", "[]").b("big", false).b("finite", vd::all_finite(Di));
     o.i("eres", md(std::max(e1, e2) / std::max((ld)1, vd::max_abs(Di) * vd::max_abs(D)))).i("err", md(vd::max_abs(vd::subm(Di, R)) / std::max((ld)1, vd::max_abs(R))));
     put(o);
 }
